@@ -1,6 +1,7 @@
 (* Model of RolloutBuffer.compute_returns_and_advantage (buffers.py).
    Definitions only; proofs are in Proofs/GaeProofs.v.  Arithmetic over Q. *)
 From Coq Require Import List QArith.
+From SB3V Require Import Lib.QUtil.
 Import ListNotations.
 Local Open Scope Q_scope.
 
@@ -83,6 +84,20 @@ Definition column {A} (e : nat) (d : A) (rows : list (list A)) : list A :=
 Definition returns_of (advs vals : list Q) : list Q := map2 Qplus advs vals.
 
 (* executable entry points used by the correspondence check *)
-Definition run_col (g l : Q) (rs vs es : list Q) (last_v done_last : Q) : list Q * list Q :=
-  let advs := gae_code g l (mk_col rs vs es last_v done_last) in
-  (map Qred advs, map Qred (returns_of advs vs)).
+(* executable variant: same recursion with every stored value reduced (Proofs.GaeProofs.gae_exec_code
+   shows it is pointwise == gae_code); un-reduced Q arithmetic over 12 steps costs seconds *)
+Fixpoint gae_exec (g l : Q) (steps : list stp) : list Q :=
+  match steps with
+  | [] => []
+  | s :: rest =>
+      let advs := gae_exec g l rest in
+      Qred (delta g s + g * l * s_nnt s * hd 0 advs) :: advs
+  end.
+
+(* correspondence entry point: compares inside Coq with the implementation's advantages /
+   returns (see Lib/QUtil.v for why exact rationals are never printed) *)
+Definition check_col (rel abs g l : Q) (rs vs es : list Q) (last_v done_last : Q)
+           (impl_adv impl_ret : list Q) : list bool * list bool * list Z :=
+  let advs := gae_exec g l (mk_col rs vs es last_v done_last) in
+  (qclose_list rel abs advs impl_adv, qclose_list rel abs (returns_of advs vs) impl_ret,
+   map qapprox advs).
